@@ -106,6 +106,18 @@ def scenarios():
             [C('schema_valid', 'json/definitions/vertical_jump_performance.json', __import__('jsonschema').Draft4Validator, True),
              C('schema_valid', 'json/race.json')], False, cache,
             pre=[C('schema_valid', 'json/definitions/vertical_jump_performance.json', __import__('jsonschema').Draft4Validator)])
+    # paths the anchored functions have that no scenario above walks (line-coverage report): the combined-events grade, a float
+    # mark for Sportshall, ages past the last column of either table, the pure text helpers side by side
+    for warm in (False, True):
+        w = '-warm' if warm else '-first'
+        add('wma-athlon-grade-x-grade' + w, [C('wma_athlon_age_grade', 'M', 50, '100', 12.0), C('wma_age_grade', 'f', 65, 'LJ', 3.8, year=2023)], warm)
+        add('wma-athlon-grade-x-athlon-factor' + w, [C('wma_athlon_age_grade', 'F', 45, 'JT', 30.0), C('wma_athlon_age_factor', 'M', 66, '60H')], warm)
+        add('sportshall-float-x-text' + w, [C('sportshall_score', 'SLJ', 2.8), C('sportshall_score', 'SHJ', '1.20')], warm)
+        add('wma-past-last-column' + w, [C('wma_age_factor', 'm', 112, '100', year=2023), C('wma_age_factor', 'f', 101.5, 'HJ', year=2015)], warm)
+        add('wma-best-x-best' + w, [C('wma_world_best', 'm', '7K', year=2023), C('wma_world_best', 'f', 'MAR', year=2023)], warm)
+        add('wma-below-first-column' + w, [C('wma_age_factor', 'm', 3, '100', year=2023), C('wma_age_factor', 'f', 5, '60', year=2023)], warm)
+        add('format-x-parse' + w, [C('format_seconds_as_time', 3599.9991, 2), C('parse_hms', '1;02;03.5')], warm)
+        add('roundup-x-roundup' + w, [C('round_up_str_num', '59.9995', 3), C('round_up_str_num', '.0049', 2)], warm)
     # triples
     add('triple-athlon-first', [C('athlon_score', 'M', '100', 11.0), C('athlon_score', 'F', 'LJ', 5.5), C('athlon_performance_needed', 'M', 'HJ', 700)])
     add('triple-wma-first', [C('wma_age_factor', 'm', 50, '100', year=2023), C('wma_age_factor', 'f', 72, 'MAR', year=2023), C('wma_age_grade', 'm', 35, 'HJ', 2.0, year=2023)])
